@@ -127,6 +127,11 @@ type kindDef struct {
 	wrap  bool   // rule wrapped in @media <media>
 	late  bool   // @import placed after a style rule (invalid position)
 	chain int    // length of the @import chain (1 or 2)
+	// inner: @media prelude wrapped around the rule INSIDE the sheet of its own that the carrier
+	// gets (the imported sheet of an @import carrier, at the end of the chain; the sheet of a
+	// <style media>/<link media> element of its own). For chain 2, media is written on the INNER
+	// @import rule, i.e. on an @import that is itself inside an imported sheet.
+	inner string
 	// shape of the selector path below the top-level selector: "" (plain rule), "&", "&.c",
 	// "&&" (two levels of "&"), "rel" (relative nested selector under body)
 	shape string
@@ -165,6 +170,29 @@ var kinds = map[string]kindDef{
 	"style-media-upper": {name: "style-media-upper", cls: clsOwnStyle, media: "PRINT"},
 	"style-screen":      {name: "style-screen", cls: clsOwnStyle, media: "screen"},
 	"link-screen":       {name: "link-screen", cls: clsOwnLink, media: "screen"},
+	// media-dependent constructs INSIDE sheets reached through @import (and inside <style media> /
+	// <link media> sheets), so that the device media type has to reach the imported sheet:
+	// @media blocks in an imported sheet, at depth 1 and 2, from <style> and from <link>; a
+	// media list on an @import that is written inside an imported sheet; a media list on the
+	// @import crossed with an @media block inside; @media directly in a <link> sheet
+	"import-media-print":         {name: "import-media-print", cls: clsStyleHead, chain: 1, inner: "print"},
+	"import-media-screen":        {name: "import-media-screen", cls: clsStyleHead, chain: 1, inner: "screen"},
+	"import2-print":              {name: "import2-print", cls: clsStyleHead, chain: 2, media: "print"},
+	"import2-screen":             {name: "import2-screen", cls: clsStyleHead, chain: 2, media: "screen"},
+	"import2-media-print":        {name: "import2-media-print", cls: clsStyleHead, chain: 2, inner: "print"},
+	"import2-media-screen":       {name: "import2-media-screen", cls: clsStyleHead, chain: 2, inner: "screen"},
+	"link-import-media-print":    {name: "link-import-media-print", cls: clsLinkHead, chain: 1, inner: "print"},
+	"link-import-media-screen":   {name: "link-import-media-screen", cls: clsLinkHead, chain: 1, inner: "screen"},
+	"link-import2-print":         {name: "link-import2-print", cls: clsLinkHead, chain: 2, media: "print"},
+	"link-import2-screen":        {name: "link-import2-screen", cls: clsLinkHead, chain: 2, media: "screen"},
+	"import-print-media-print":   {name: "import-print-media-print", cls: clsStyleHead, chain: 1, media: "print", inner: "print"},
+	"import-screen-media-screen": {name: "import-screen-media-screen", cls: clsStyleHead, chain: 1, media: "screen", inner: "screen"},
+	"import-print-media-screen":  {name: "import-print-media-screen", cls: clsStyleHead, chain: 1, media: "print", inner: "screen"},
+	"import-screen-media-print":  {name: "import-screen-media-print", cls: clsStyleHead, chain: 1, media: "screen", inner: "print"},
+	"style-screen-media-screen":  {name: "style-screen-media-screen", cls: clsOwnStyle, media: "screen", inner: "screen"},
+	"link-screen-media-print":    {name: "link-screen-media-print", cls: clsOwnLink, media: "screen", inner: "print"},
+	"link-media-print":           {name: "link-media-print", cls: clsLinkBody, wrap: true, media: "print"},
+	"link-media-screen":          {name: "link-media-screen", cls: clsLinkBody, wrap: true, media: "screen"},
 	// nested rules live in the body of a <style>; they differ by their selector path
 	"nest&":        {name: "nest&", cls: clsStyleBody, shape: "&"},
 	"nest&.c":      {name: "nest&.c", cls: clsStyleBody, shape: "&.c"},
@@ -320,6 +348,20 @@ func fullSet() []inst {
 	for _, k := range []string{"media-screen", "import-screen", "import-late", "style-screen", "link-screen"} {
 		out = append(out, ruleInst(k, "#i.c", true), ruleInst(k, "*", false))
 	}
+	// media-dependent constructs inside imported sheets: the ones that apply on print tie on
+	// specificity with the other ".c" carriers; the ones that apply on screen only, or never, in
+	// the strongest and the weakest form like the other screen carriers
+	for _, k := range []string{"import-media-print", "import2-print", "import2-media-print", "link-import-media-print", "link-import2-print",
+		"import-print-media-print", "link-media-print"} {
+		for _, imp := range bools {
+			out = append(out, ruleInst(k, ".c", imp))
+		}
+	}
+	for _, k := range []string{"import-media-screen", "import2-screen", "import2-media-screen", "link-import-media-screen", "link-import2-screen",
+		"import-screen-media-screen", "import-print-media-screen", "import-screen-media-print", "style-screen-media-screen",
+		"link-screen-media-print", "link-media-screen"} {
+		out = append(out, ruleInst(k, "#i.c", true), ruleInst(k, "*", false))
+	}
 	for _, s := range selNo {
 		for _, imp := range bools {
 			out = append(out, ruleInst("nomatch", s.text, imp))
@@ -378,6 +420,10 @@ func reducedSet() []inst {
 	for _, k := range []string{"media-screen", "import-screen", "import-late", "style-screen", "link-screen"} {
 		out = append(out, ruleInst(k, "#i.c", true))
 	}
+	// media-dependent constructs inside imported sheets
+	out = append(out, ruleInst("import-media-print", ".c", false), ruleInst("import2-print", ".c", false),
+		ruleInst("import-media-screen", "#i.c", true), ruleInst("import2-screen", "#i.c", true),
+		ruleInst("link-import-media-screen", "#i.c", true), ruleInst("import-screen-media-screen", "#i.c", true))
 	out = append(out, ruleInst("nomatch", "q", true), ruleInst("nomatch", "#z", false),
 		nestNoMatch([]string{"q", "&"}, true, false), nestNoMatch([]string{"q", "#z,T"}, true, true))
 	return out
@@ -545,7 +591,13 @@ func build(p *propDef, insts []inst, v variant) *docB {
 		one := &sheetB{} // the sheet holding just this rule (imported sheets, own elements)
 		pd := k.pads()
 		if len(in.path) > 0 {
-			addRule(&one.items, in.path, pd, dc, false)
+			if k.inner != "" {
+				mb := &mediaB{query: k.inner}
+				addRule(&mb.items, in.path, pd, dc, false)
+				one.items = append(one.items, mb)
+			} else {
+				addRule(&one.items, in.path, pd, dc, false)
+			}
 		}
 		switch k.cls {
 		case clsUA:
@@ -1197,6 +1249,30 @@ func (d *docB) tags(recs []rec, hints bool, device string, v variant) []string {
 	for _, e := range d.elems {
 		scanSheet(e.sheet)
 	}
+	// media-dependent constructs inside a sheet reached through @import (depth >= 1): the device
+	// media type has to be handed down to the imported sheet for them to be evaluated correctly
+	var scanImported func(sh *sheetB, depth int)
+	scanImported = func(sh *sheetB, depth int) {
+		for _, im := range sh.imports {
+			if depth >= 1 && im.media != "" {
+				set["import-media-inside-imported-sheet"] = true
+			}
+			scanImported(im.sheet, depth+1)
+		}
+		for _, it := range sh.items {
+			switch it := it.(type) {
+			case *mediaB:
+				if depth >= 1 {
+					set["media-block-inside-imported-sheet"] = true
+				}
+			case importB:
+				scanImported(it.sheet, depth+1)
+			}
+		}
+	}
+	for _, e := range d.elems {
+		scanImported(e.sheet, 0)
+	}
 	out := make([]string, 0, len(set))
 	for k := range set {
 		out = append(out, k)
@@ -1216,39 +1292,52 @@ func selfTest() error {
 		v     variant
 		hints bool
 		want  [2]int
+		dev   string // "" = print
 	}
 	st := func(sel string, imp bool) inst { return ruleInst("style", sel, imp) }
 	cases := []tc{
-		{"later rule of equal specificity wins", []inst{st("T", false), st("T", false)}, varShare, true, [2]int{1, 1}},
-		{"higher specificity wins whatever the order", []inst{st("#i", false), st("T.c", false)}, varShare, true, [2]int{0, 0}},
-		{"!important author beats normal author", []inst{st("T", true), st("#i", false)}, varShare, true, [2]int{0, 0}},
-		{"user !important beats author !important", []inst{ruleInst("user", "*", true), st("#i.c", true)}, varShare, true, [2]int{0, 0}},
-		{"author normal beats user normal", []inst{st("*", false), ruleInst("user", "#i.c", false)}, varShare, true, [2]int{0, 0}},
-		{"user beats user agent", []inst{ruleInst("user", "*", false), ruleInst("ua", "#i.c", false)}, varShare, true, [2]int{0, 0}},
-		{"style attribute beats an id selector", []inst{{kind: "attr"}, st("#i", false)}, varShare, true, [2]int{0, 0}},
-		{"!important rule beats a normal style attribute", []inst{{kind: "attr"}, st("*", true)}, varShare, true, [2]int{1, 1}},
-		{"hint loses to the universal selector", []inst{{kind: "hint"}, st("*", false)}, varShare, true, [2]int{1, 1}},
-		{"hint beats user and user-agent rules", []inst{{kind: "hint"}, ruleInst("user", "#i", false), ruleInst("ua", "#i", false)}, varShare, true, [2]int{0, 0}},
-		{"hint ignored when hints are off", []inst{{kind: "hint"}, ruleInst("ua", "*", false)}, varShare, false, [2]int{1, 1}},
-		{"@media screen does not apply on print", []inst{ruleInst("media-screen", "#i.c", true), st("*", false)}, varShare, true, [2]int{1, 1}},
-		{"imported sheet is ordered at its @import", []inst{ruleInst("import", "T", false), st("T", false)}, varShare, true, [2]int{1, 1}},
-		{"nested rule after a declaration wins the tie (CSS Nesting)", []inst{st("T", false), ruleInst("nest&", "T", false)}, varMerge, true, [2]int{1, 1}},
-		{"declaration after a nested rule: the two drafts differ", []inst{ruleInst("nest&", "T", false), st("T", false)}, varMerge, true, [2]int{1, 0}},
-		{"& has the specificity of :is(parent list)", []inst{ruleInst("nest&", "#z,T", false), st(".c", false)}, varShare, true, [2]int{0, 0}},
-		{"a list weighs as its most specific matching member, wherever it is", []inst{st("T,#i", false), st(".c", false)}, varShare, true, [2]int{0, 0}},
-		{"a list weighs as its most specific matching member (2)", []inst{st("*,T.c", false), st(".c", false)}, varShare, true, [2]int{0, 0}},
-		{"non-matching members of a list do not count", []inst{st("T,#z,.c", false), st("T.c", false)}, varShare, true, [2]int{1, 1}},
-		{"a declaration before a nested rule and padding stays a candidate", []inst{ruleInst("style-dNF", "T", true), st("#i", false)}, varShare, true, [2]int{0, 0}},
-		{"padding between the parent declaration and a later one: the two drafts agree", []inst{ruleInst("style-dN", "T", false), st("T", false)}, varMerge, true, [2]int{1, 1}},
-		{"nested rule inside @media print applies", []inst{ruleInst("media-nest&", "T", false), st("*", false)}, varShare, true, [2]int{0, 0}},
-		{"hint of the hint sheet loses to * and beats the user sheet", []inst{{kind: "hint"}, st("*", false), ruleInst("user", "#i", false)}, varShare, true, [2]int{1, 1}},
-		{"an invalid nested rule does not take its parent with it", []inst{ruleInst("style-dX", "T", false), ruleInst("nest-invalid", "#i", true), ruleInst("ua", "#i", false)}, varMerge, true, [2]int{0, 0}},
-		{"a pseudo-element nested rule does not style the element", []inst{ruleInst("nest-pseudo-el", "T", true), ruleInst("style-Ud", "*", false)}, varShare, true, [2]int{1, 1}},
-		{"relative nested selector adds the parent", []inst{ruleInst("nestrel", "T", false), st("T", false)}, varShare, true, [2]int{0, 0}},
+		{"later rule of equal specificity wins", []inst{st("T", false), st("T", false)}, varShare, true, [2]int{1, 1}, ""},
+		{"higher specificity wins whatever the order", []inst{st("#i", false), st("T.c", false)}, varShare, true, [2]int{0, 0}, ""},
+		{"!important author beats normal author", []inst{st("T", true), st("#i", false)}, varShare, true, [2]int{0, 0}, ""},
+		{"user !important beats author !important", []inst{ruleInst("user", "*", true), st("#i.c", true)}, varShare, true, [2]int{0, 0}, ""},
+		{"author normal beats user normal", []inst{st("*", false), ruleInst("user", "#i.c", false)}, varShare, true, [2]int{0, 0}, ""},
+		{"user beats user agent", []inst{ruleInst("user", "*", false), ruleInst("ua", "#i.c", false)}, varShare, true, [2]int{0, 0}, ""},
+		{"style attribute beats an id selector", []inst{{kind: "attr"}, st("#i", false)}, varShare, true, [2]int{0, 0}, ""},
+		{"!important rule beats a normal style attribute", []inst{{kind: "attr"}, st("*", true)}, varShare, true, [2]int{1, 1}, ""},
+		{"hint loses to the universal selector", []inst{{kind: "hint"}, st("*", false)}, varShare, true, [2]int{1, 1}, ""},
+		{"hint beats user and user-agent rules", []inst{{kind: "hint"}, ruleInst("user", "#i", false), ruleInst("ua", "#i", false)}, varShare, true, [2]int{0, 0}, ""},
+		{"hint ignored when hints are off", []inst{{kind: "hint"}, ruleInst("ua", "*", false)}, varShare, false, [2]int{1, 1}, ""},
+		{"@media screen does not apply on print", []inst{ruleInst("media-screen", "#i.c", true), st("*", false)}, varShare, true, [2]int{1, 1}, ""},
+		{"imported sheet is ordered at its @import", []inst{ruleInst("import", "T", false), st("T", false)}, varShare, true, [2]int{1, 1}, ""},
+		{"nested rule after a declaration wins the tie (CSS Nesting)", []inst{st("T", false), ruleInst("nest&", "T", false)}, varMerge, true, [2]int{1, 1}, ""},
+		{"declaration after a nested rule: the two drafts differ", []inst{ruleInst("nest&", "T", false), st("T", false)}, varMerge, true, [2]int{1, 0}, ""},
+		{"& has the specificity of :is(parent list)", []inst{ruleInst("nest&", "#z,T", false), st(".c", false)}, varShare, true, [2]int{0, 0}, ""},
+		{"a list weighs as its most specific matching member, wherever it is", []inst{st("T,#i", false), st(".c", false)}, varShare, true, [2]int{0, 0}, ""},
+		{"a list weighs as its most specific matching member (2)", []inst{st("*,T.c", false), st(".c", false)}, varShare, true, [2]int{0, 0}, ""},
+		{"non-matching members of a list do not count", []inst{st("T,#z,.c", false), st("T.c", false)}, varShare, true, [2]int{1, 1}, ""},
+		{"a declaration before a nested rule and padding stays a candidate", []inst{ruleInst("style-dNF", "T", true), st("#i", false)}, varShare, true, [2]int{0, 0}, ""},
+		{"padding between the parent declaration and a later one: the two drafts agree", []inst{ruleInst("style-dN", "T", false), st("T", false)}, varMerge, true, [2]int{1, 1}, ""},
+		{"nested rule inside @media print applies", []inst{ruleInst("media-nest&", "T", false), st("*", false)}, varShare, true, [2]int{0, 0}, ""},
+		{"hint of the hint sheet loses to * and beats the user sheet", []inst{{kind: "hint"}, st("*", false), ruleInst("user", "#i", false)}, varShare, true, [2]int{1, 1}, ""},
+		{"an invalid nested rule does not take its parent with it", []inst{ruleInst("style-dX", "T", false), ruleInst("nest-invalid", "#i", true), ruleInst("ua", "#i", false)}, varMerge, true, [2]int{0, 0}, ""},
+		{"a pseudo-element nested rule does not style the element", []inst{ruleInst("nest-pseudo-el", "T", true), ruleInst("style-Ud", "*", false)}, varShare, true, [2]int{1, 1}, ""},
+		{"relative nested selector adds the parent", []inst{ruleInst("nestrel", "T", false), st("T", false)}, varShare, true, [2]int{0, 0}, ""},
+		// Media Queries / Cascade 4 §2 (@import conditions): the medium of the document decides everywhere, also inside imported sheets
+		{"@media screen applies on screen", []inst{ruleInst("media-screen", "*", false)}, varShare, true, [2]int{0, 0}, "screen"},
+		{"@media print in an imported sheet does not apply on screen", []inst{ruleInst("import-media-print", ".c", true), st("*", false)}, varShare, true, [2]int{1, 1}, "screen"},
+		{"@media screen in an imported sheet applies on screen, ordered at its @import", []inst{ruleInst("import-media-screen", "*", false), st("*", false), ruleInst("import2-media-screen", "#i.c", true)}, varShare, true, [2]int{2, 2}, "screen"},
+		{"@media screen in an imported sheet does not apply on print", []inst{ruleInst("import-media-screen", "#i.c", true)}, varShare, true, [2]int{-1, -1}, ""},
+		{"@import print inside an imported sheet does not apply on screen", []inst{st("*", false), ruleInst("import2-print", ".c", true)}, varShare, true, [2]int{0, 0}, "screen"},
+		{"@import screen holding @media print never applies", []inst{ruleInst("import-screen-media-print", "#i.c", true), ruleInst("link-import2-screen", "*", false)}, varShare, true, [2]int{1, 1}, "screen"},
+		{"@import screen holding @media print never applies (print)", []inst{ruleInst("import-screen-media-print", "#i.c", true), ruleInst("link-import2-screen", "*", false)}, varShare, true, [2]int{-1, -1}, ""},
 	}
 	for _, c := range cases {
 		d := build(p, c.insts, c.v)
-		recs := d.evaluate(c.hints, "print")
+		dev := c.dev
+		if dev == "" {
+			dev = "print"
+		}
+		recs := d.evaluate(c.hints, dev)
 		for r := 0; r < 2; r++ {
 			if got := winner(recs, r); got != c.want[r] {
 				return fmt.Errorf("reference self-test %q: reading %d: winner %d, want %d", c.name, r, got, c.want[r])
